@@ -277,7 +277,139 @@ func RunLRUDrive(seed uint64, thorough bool, env *Env) *RunResult {
 			steps = r.Range(200, 1500)
 			res.Stats["lrudrive_big_capacity_seqs"]++
 		}
-		for i := 0; i < steps && w.Viol == nil; i++ {
+		phased := !big && r.Chance(0.3)
+		if phased {
+			// engine-shaped bursts instead of a uniform mix: long runs of dirty
+			// pages at the cold end, a flush that re-stores each of them, then
+			// insertions - at capacities around every power of two up to 512
+			capacity = r.Range(4, 80)
+			if r.Chance(0.3) {
+				capacity = []int{15, 16, 17, 31, 32, 33, 34, 63, 64, 65, 66, 127, 128, 129, 130, 255, 257, 300, 513}[r.Intn(19)]
+			}
+			l = storage.NewLRU(capacity)
+			w.AttachLRUModel(l)
+			m = w.lruShadow[l]
+			shape = uint64(capacity)
+			steps = 0
+			res.Stats["lrudrive_phased_seqs"]++
+			fresh := uint64(0) // keys never used before
+			newKey := func() uint64 { fresh++; return (1<<20 + fresh) * 4096 }
+			insert := func(k uint64, dirty bool) {
+				n := storage.VerifNewNode(k, dirty)
+				_, anyClean := m.victim()
+				want := m.idx(k) >= 0 || len(m.keys) < m.cap || anyClean
+				got := l.VerifSet(k, n)
+				if got != want {
+					w.lruFail(fmt.Sprintf("set(%d) returned %v, model expects %v (%d/%d entries, clean entry available: %v)", k, got, want, len(m.keys), m.cap, anyClean), "set-return")
+				}
+				if !got {
+					res.Stats["lrudrive_refused"]++
+					shape = shape*31 + 7
+				}
+				res.Stats["lrudrive_set"]++
+				steps++
+			}
+			lookup := func(k uint64) {
+				wantOK := m.idx(k) >= 0
+				wantN := m.vals[k]
+				n, ok := l.VerifGet(k)
+				if ok != wantOK || (ok && n != wantN) {
+					w.lruFail(fmt.Sprintf("get(%d) returned (%v) but the model says resident=%v", k, ok, wantOK), "get-return")
+				}
+				res.Stats["lrudrive_get"]++
+				steps++
+			}
+			rounds := r.Range(2, 7)
+			for round := 0; round < rounds && w.Viol == nil; round++ {
+				// fill up with clean pages
+				for len(m.keys) < m.cap && w.Viol == nil && r.Chance(0.97) {
+					insert(newKey(), false)
+				}
+				// a burst of dirty pages: resident ones from the cold end, the warm end
+				// or anywhere, or newly inserted ones
+				burst := r.Range(1, capacity)
+				from := r.Intn(4)
+				for j := 0; j < burst && w.Viol == nil; j++ {
+					keys := m.keys
+					if len(keys) == 0 {
+						break
+					}
+					switch from {
+					case 0: // coldest clean entries become dirty in place
+						for i := len(keys) - 1; i >= 0; i-- {
+							if n := m.vals[keys[i]]; !n.VerifIsDirty() {
+								n.VerifSetDirty(true)
+								res.Stats["lrudrive_dirty"]++
+								break
+							}
+						}
+					case 1: // new dirty pages
+						insert(newKey(), true)
+					case 2: // looked up, then changed
+						k := keys[r.Intn(len(keys))]
+						lookup(k)
+						if n := m.vals[k]; n != nil {
+							n.VerifSetDirty(true)
+							res.Stats["lrudrive_dirty"]++
+						}
+					default:
+						m.vals[keys[r.Intn(len(keys))]].VerifSetDirty(true)
+						res.Stats["lrudrive_dirty"]++
+					}
+				}
+				// the burst ages: other pages are touched or inserted
+				age := r.Intn(capacity + 1)
+				for j := 0; j < age && w.Viol == nil; j++ {
+					if r.Chance(0.5) && len(m.keys) > 0 {
+						lookup(m.keys[r.Intn(len(m.keys))])
+					} else {
+						insert(newKey(), r.Chance(0.1))
+					}
+				}
+				if nIdx, _ := l.VerifLen(); nIdx > capacity {
+					w.lruFail(fmt.Sprintf("cache holds %d entries, capacity %d", nIdx, capacity), "over-capacity")
+				}
+				// flush as fileStore.flushPages does it: every dirty page is stored
+				// again under its key, then marked clean (some flushes are partial:
+				// a crash model is not needed here, a statement may dirty pages again)
+				if r.Chance(0.85) {
+					var dirty []uint64
+					for _, kk := range m.keys {
+						if m.vals[kk].VerifIsDirty() {
+							dirty = append(dirty, kk)
+						}
+					}
+					for _, i := range r.Perm(len(dirty)) {
+						kk := dirty[i]
+						n := m.vals[kk]
+						if r.Chance(0.8) {
+							if !l.VerifSet(kk, n) {
+								w.lruFail(fmt.Sprintf("set(%d) of a resident key refused", kk), "set-return")
+							}
+							res.Stats["lrudrive_reset"]++
+						}
+						n.VerifSetDirty(false)
+					}
+					res.Stats["lrudrive_clean"]++
+				}
+				// misses after the flush
+				after := r.Range(1, capacity+3)
+				for j := 0; j < after && w.Viol == nil; j++ {
+					switch r.Intn(4) {
+					case 0:
+						if len(m.keys) > 0 {
+							lookup(m.keys[r.Intn(len(m.keys))])
+						}
+					default:
+						insert(newKey(), r.Chance(0.15))
+					}
+				}
+				if nIdx, _ := l.VerifLen(); nIdx > capacity {
+					w.lruFail(fmt.Sprintf("cache holds %d entries, capacity %d", nIdx, capacity), "over-capacity")
+				}
+			}
+		}
+		for i := 0; !phased && i < steps && w.Viol == nil; i++ {
 			k := uint64(r.Intn(nkeys)) * 4096
 			switch r.Intn(10) {
 			case 0, 1, 2: // lookup
